@@ -400,7 +400,7 @@ PROPS["C19"] = {
     "name_filter": "^c19_",
     "stubbing": True,
     "needs_rand_090": False,
-    "caps_by_harness": [("_t_inputs_", (1500, 14))],
+    "has_thorough_harnesses": False,
     "functions": [
         "the builder generated by #[push_macros::push_state(builder)] for push::push_vm::push_state::PushState: builder(), with_max_stack_size, with_int_max_size, "
         "with_{int,bool,float}_values, with_program, with_no_program, with_int_input, with_instruction_step_limit, build",
@@ -411,9 +411,10 @@ PROPS["C19"] = {
                  "first supplied value on top, contents exact, Overflow exactly when a list is longer than the maximum; symbolic global / individual int maximum in both call orders: last one set wins; "
                  "programs of 0,1,3 sentinel elements with a symbolic maximum: first element on top of exec, Overflow when too long; step limit stored; every accessor addresses the field of its element type. "
                  "Lengths and the maximum are per-harness constants (fit / overflow instances), values symbolic",
-        "thorough": "as quick plus: two int inputs declared in both orders resolve to their own values (HashMap lookups: 25 min cap)",
+        "thorough": "same as quick",
     },
     "outside": "the compile-time clauses (incomplete builders cannot be built; a stack's size cannot change after values were loaded) are decided by rustc's type checker, not by a solver: NOT claimed; "
+               "the named-inputs clause (inputs resolve to their values regardless of declaration order): the input map is a std HashMap and two inserts plus one lookup exceed 25 min under CBMC: NOT claimed; "
                "state structs other than PushState (a second #[push_state] struct with foreign element types does not compile outside the push crate: E0119); value lists longer than 3; "
                "HashMap iteration order (RandomState stubbed with fixed keys)",
     "assumptions": ["std::hash::RandomState::new is stubbed with fixed SipHash keys (no OS entropy under Kani)"],
